@@ -164,6 +164,29 @@ theorem tie_fanout_assigns : fanoutAssigns =
 theorem tie_fanout_returns : fanoutReturns =
     ["false", "false", "true", "", "", "", "", "", "true", "true", "true"] := rfl
 
+/-- legacy by-UUID delegate: GET only, a UUID present, prefix `uuid[0:5]` not the own cluster; then
+the remote's response goes through `rewriteSignatures(<prefix>, "", …)` (no expected hash) and is
+forwarded; an unconfigured prefix is an HTTPError 404 from `remoteClusterRequest`
+(Model: `legacyFetchByUUID`). -/
+theorem tie_byUUID_skeleton : byUUIDSkeleton =
+    ["if effectiveMethod != \"GET\" {", "return", "}",
+     "if uuid != \"\" {",
+     "if *clusterID != \"\" && *clusterID != h.handler.Cluster.ClusterID {",
+     "call h.handler.remoteClusterRequest => resp,err",
+     "call rewriteSignatures => newResponse,err",
+     "call h.handler.proxy.ForwardResponse",
+     "return", "}", "}", "return"] := rfl
+
+theorem tie_byUUID_assigns : byUUIDAssigns =
+    ["*clusterID = uuid[0:5]",
+     "resp, err := h.handler.remoteClusterRequest(*clusterID, req)",
+     "newResponse, err := rewriteSignatures(*clusterID, \"\", resp, err)"] ∧ byUUIDInts = [0, 5] := ⟨rfl, rfl⟩
+
+theorem tie_remoteRequest : remoteRequestConds = ["if !ok", "if scheme == \"\"", "if err != nil", "if remote.Insecure"]
+    ∧ remoteRequestReturns =
+      ["nil, HTTPError{fmt.Sprintf(\"no proxy available for cluster %v\", remoteID), http.StatusNotFound}",
+       "nil, err", "h.proxy.Do(saltedReq, urlOut, client)"] := ⟨rfl, rfl⟩
+
 theorem tie_filterLocal : filterLocalText =
     "{ if requestError != nil { return resp, requestError } if resp.StatusCode == http.StatusNotFound { return nil, nil } return resp, nil }" := rfl
 
